@@ -338,6 +338,12 @@ func run(c Case) error {
 				}
 				resp := v.NatHoleResps()[n0]
 				want := typeOK && allowed(r.Proxy, vUser)
+				// a pre-check bridges nothing. It must be refused when the request proper would be (wrong user, no live
+				// xtcp proxy) and must pass for what the stock visitor sends (unsigned or correctly signed, allowed user);
+				// a pre-check from an allowed user that carries a WRONG signature may be answered either way
+				if want && r.Sign != "ok" && r.Sign != "empty" {
+					continue
+				}
 				if (resp.Error == "") != want {
 					return fmt.Errorf("step %d: NAT-hole pre-check by user %q for %s (live xtcp=%v): passed=%v (%q), reference says %v", step, vUser, name, typeOK, resp.Error == "", resp.Error, want)
 				}
